@@ -1201,6 +1201,8 @@ func init() {
 func init() {
 	register("C19", ruleDualWhere)
 	register("C01", ruleDualWhere)
+	register("C02", ruleDualWhere)
+	register("C20", ruleDualWhere)
 }
 
 // ruleDualWhere: the FROM-less arm of exec does not skip the WHERE clause.
@@ -1303,6 +1305,36 @@ func ruleDualWhere(c *Ctx) {
 		}
 	}
 	c.Check(bad == "", "exec.dual-where", "(*Query).exec/dual-arm/verdict", c.P.Pos(entry.Instrs[0].Pos()), "a row the WHERE evaluator refuses is not projected", bad)
+	// ... and what is projected is the list of kept rows, not the source the loop read (round 11: two independent agents wrote
+	// `ExecSelect(query, query.from)` for `ExecSelect(query, from)` — the refused row of dual is projected, its SETVAR runs)
+	nProj, badProj := 0, ""
+	deepInstrs(exec, func(g *ssa.Function, tb *TB, b *ssa.BasicBlock, in ssa.Instruction) {
+		call, ok := in.(*ssa.Call)
+		if !ok || g != exec || !underDual(b) {
+			return
+		}
+		if sc := call.Common().StaticCallee(); sc == nil || fnShort(sc) != "ExecSelect" || len(call.Common().Args) != 2 {
+			return
+		}
+		nProj++
+		at := tb.Of(call.Common().Args[1])
+		src := false
+		at.Walk(func(x *Term) bool {
+			if x.Op == "phi" || x == at {
+				if x.Op == "field" && x.Name == "from" {
+					src = true
+				}
+				return true
+			}
+			return false
+		})
+		if src {
+			badProj = "the FROM-less arm projects query.from, the rows the WHERE loop read, at " + c.P.Pos(call.Pos()) + ": the row WHERE refused is projected all the same (its select list runs, SETVAR included) and returned"
+		}
+	})
+	if nProj > 0 {
+		c.Check(badProj == "", "exec.dual-where", "(*Query).exec/dual-arm/projected", c.P.Pos(entry.Instrs[0].Pos()), "the projection receives the kept rows, not the source list", badProj)
+	}
 }
 
 func init() {
